@@ -544,6 +544,7 @@ static nlopt_result nlopt_optimize_(nlopt_opt opt, double *x, double *minf)
 
     if (n == 0) {               /* trivial case: no degrees of freedom */
         *minf = opt->f(n, x, NULL, opt->f_data);
+        opt->numevals = 1;
         return NLOPT_SUCCESS;
     }
 
